@@ -161,6 +161,31 @@ func C17(e *Env) {
 			list = append(list, sess{"crossing EOF", []wire.Req{wire.P(wire.OpOpen, "/"+img.rel), wire.CD(3, 1), wire.CD(uint32(cross[0]), uint32(cross[1]))}, img})
 		}
 	}
+	// sector reads interleaved with ordinary and critical file reads on the same open image: a sector
+	// read that continues exactly where the previous one ended must not depend on where another kind
+	// of read left the file
+	for _, img := range imgs {
+		S := img.wantS
+		last := (img.size - 24 - 2048) / S
+		if last < 40 {
+			continue
+		}
+		for k := 0; k < e.Pick(2, 20); k++ {
+			s0 := int64(rng.Intn(int(last - 30)))
+			n0 := int64(1 + rng.Intn(4))
+			reqs := []wire.Req{wire.P(wire.OpOpen, "/"+img.rel), wire.CD(uint32(s0), uint32(n0))}
+			switch k % 3 {
+			case 0:
+				reqs = append(reqs, wire.Read(uint32(100+rng.Intn(5000)), uint64(rng.Int63n(img.size/2))))
+			case 1:
+				reqs = append(reqs, wire.Crit(uint32(1+rng.Intn(3000)), uint64(rng.Int63n(img.size/2))))
+			default:
+				reqs = append(reqs, wire.Read(2048, uint64(24+(s0+n0+7)*S)), wire.Crit(10, 0))
+			}
+			reqs = append(reqs, wire.CD(uint32(s0+n0), uint32(1+rng.Intn(3))), wire.CD(uint32(s0+n0), 1), wire.Read(16, 0), wire.CD(0, 1))
+			list = append(list, sess{"interleaved with file reads", reqs, img})
+		}
+	}
 	// re-opening images of different sector size on one connection
 	for i := 0; i < e.Pick(40, 3000); i++ {
 		a, b := imgs[rng.Intn(len(imgs))], imgs[rng.Intn(len(imgs))]
